@@ -14,6 +14,7 @@ CONSTANTS
   ListAns = {"a0", "a12", "a1"}
   MaxItems = 2
   Layouts = {}
+  TableOnly = {"g1212"}
   OkRecomputed = TRUE
 INVARIANT InvStage
 INVARIANT InvGradesInUnit
